@@ -90,6 +90,13 @@ def handle (entry : String) (j : Json) : Except String Json := do
       | .strm (x :: xs) => rats (attackSpec a d x xs n)
       | .strm [] => Json.null
     pure <| Json.mkObj [("model", exceptJson (attack a d s n)), ("spec", spec)]
+  | "noise" =>
+    let dur ← optRat j "dur"
+    let n ← getNat (← field j "n")
+    let specLen : Nat := match dur with
+      | none => n
+      | some d => min n (durLen d)
+    pure <| Json.mkObj [("model", natToJson (noiseLen dur n)), ("spec", natToJson specLen)]
   | "table_call" =>
     let tbl ← getList getRat (← field j "table")
     let den ← getRat (← field j "den")
